@@ -660,3 +660,110 @@ func NowV() VPat {
 		return false
 	}}
 }
+
+// ShelfOfV matches the result of tx.GetShelfWriter(name) / tx.GetShelfReader(name) for the constant shelf name.
+func ShelfOfV(name string) VPat {
+	return VPat{"shelf " + name, func(v ssa.Value) bool {
+		c, ok := stripConv(v).(*ssa.Call)
+		if !ok || !c.Common().IsInvoke() || len(c.Common().Args) != 1 {
+			return false
+		}
+		if m := c.Common().Method.Name(); m != "GetShelfWriter" && m != "GetShelfReader" {
+			return false
+		}
+		s, ok := ConstString(c.Common().Args[0])
+		return ok && s == name
+	}}
+}
+
+// SubConstV matches inner - k.
+func SubConstV(inner VPat, k int64) VPat {
+	return VPat{fmt.Sprintf("%s - %d", inner.Desc, k), func(v ssa.Value) bool {
+		bin, ok := stripConv(v).(*ssa.BinOp)
+		if !ok || bin.Op != token.SUB {
+			return false
+		}
+		c, isC := ConstInt(bin.Y)
+		return isC && c == k && (inner.M(bin.X) || inner.M(stripConv(bin.X)))
+	}}
+}
+
+// SumV matches a + b (either order), looking through conversions of the operands.
+func SumV(a, b VPat) VPat {
+	return VPat{a.Desc + " + " + b.Desc, func(v ssa.Value) bool {
+		bin, ok := stripConv(v).(*ssa.BinOp)
+		if !ok || bin.Op != token.ADD {
+			return false
+		}
+		m := func(p VPat, x ssa.Value) bool { return p.M(x) || p.M(stripConv(x)) }
+		return m(a, bin.X) && m(b, bin.Y) || m(a, bin.Y) && m(b, bin.X)
+	}}
+}
+
+// OriginV matches a value that — through loads of local variables, phis (nil constants ignored), pointer dereferences and
+// conversions — originates only from values matching inner (at least one).
+func OriginV(inner VPat) VPat {
+	var rec func(v ssa.Value, depth int, hit *bool, seen map[ssa.Value]bool) bool
+	rec = func(v ssa.Value, depth int, hit *bool, seen map[ssa.Value]bool) bool {
+		if depth > 10 || v == nil {
+			return false
+		}
+		if seen[v] {
+			return true
+		}
+		seen[v] = true
+		if inner.M(v) {
+			*hit = true
+			return true
+		}
+		switch x := v.(type) {
+		case *ssa.Const:
+			return x.IsNil()
+		case *ssa.Phi:
+			for _, e := range x.Edges {
+				if !rec(e, depth+1, hit, seen) {
+					return false
+				}
+			}
+			return true
+		case *ssa.UnOp:
+			if x.Op != token.MUL {
+				return false
+			}
+			if a, ok := x.X.(*ssa.Alloc); ok {
+				n := 0
+				for _, st := range storesTo(a) {
+					n++
+					if !rec(st.Val, depth+1, hit, seen) {
+						return false
+					}
+				}
+				return n > 0
+			}
+			if fv, ok := x.X.(*ssa.FreeVar); ok {
+				n := 0
+				for _, st := range storesTo(fv) {
+					n++
+					if !rec(st.Val, depth+1, hit, seen) {
+						return false
+					}
+				}
+				return n > 0
+			}
+			return rec(x.X, depth+1, hit, seen)
+		case *ssa.ChangeType:
+			return rec(x.X, depth+1, hit, seen)
+		case *ssa.Convert:
+			return rec(x.X, depth+1, hit, seen)
+		case *ssa.ChangeInterface:
+			return rec(x.X, depth+1, hit, seen)
+		case *ssa.MakeInterface:
+			return rec(x.X, depth+1, hit, seen)
+		}
+		return false
+	}
+	return VPat{"value originating from " + inner.Desc, func(v ssa.Value) bool {
+		hit := false
+		return rec(v, 0, &hit, map[ssa.Value]bool{}) && hit
+	}}
+}
